@@ -122,3 +122,27 @@ class NeedsW(Base):
         self.w = w
         self.t = t
         LOG.append((type(self).__name__, dict(w=w, t=t), self))
+
+
+@dataclass
+class G1:
+    c: List[int]
+    a: int = 1
+    b: Optional[float] = None
+
+
+class G1Class:
+    def __init__(self, c: List[int], a: int = 1, b: Optional[float] = None):
+        self.c, self.a, self.b = c, a, b
+
+
+@dataclass
+class G2:
+    flag: bool = False
+    name: str = "n"
+    inner: Inner = field(default_factory=Inner)
+
+
+class G2Class:
+    def __init__(self, flag: bool = False, name: str = "n", inner: Inner = Inner()):
+        self.flag, self.name, self.inner = flag, name, inner
